@@ -25,7 +25,9 @@ ASSUMPTIONS = ["term lists are duplicate-free (a list specification repeating a 
 
 FORMULAS = ["B:A + a", "a + A:B:a", "b:a + A", "A + B + A:B", "G:B:A", "0 + A + a:A", "a + poly(b, 2) + A", "bs(a, df=4) + B:A", "C(A, contr.sum):b + a",
             "a:b + b:a:c", "A + G:A", "2:a + b", "c + C(G, contr.helmert) + B", "B:a + A:b + a:b", "a + b + c + a:b:c", "G + G:a", "center(a):A + B",
-            "a + np.abs(center(b)) + A:np.abs(center(b))", "np.exp(scale(a)) + b + B", "I(center(a) * 2):B + c", "poly(center(b), 2) + a"]
+            "a + np.abs(center(b)) + A:np.abs(center(b))", "np.exp(scale(a)) + b + B", "I(center(a) * 2):B + c", "poly(center(b), 2) + a",
+            # factor expressions that themselves contain ':' (printed back-quoted inside a term)
+            "a + I({0: a}[0]):A", "I(b[0:]) + a + B:I(b[0:])", "a + I({0: a}[0]):I(b[0:]):B", "I(b[0:]):a + c"]
 
 
 def run(ctx: Ctx):
@@ -83,7 +85,7 @@ def run(ctx: Ctx):
                 rng.shuffle(p)
                 orders.append(p)
             for o in orders:
-                key = ":".join(o)
+                key = ":".join(repr(Factor(x)) for x in o)       # the printed form: a factor containing ':' is back-quoted
                 got = {}
                 for nm, fn in (("term_indices", lambda: list(ms.term_indices[key])), ("term_slices", lambda: ms.term_slices[key]),
                                ("get_slice", lambda: ms.get_slice(key)), ("Term", lambda: list(ms.term_indices[Term([Factor(x) for x in o])]))):
@@ -120,15 +122,54 @@ def run(ctx: Ctx):
             if list(ix) != want:
                 ctx.fail(f"variable_indices[{v!r}] = {ix}, the terms using it occupy {want}", rp)
             vlit.append(f"({cstr(str(v))}, {clist(str(k) + '%nat' for k in ix)})")
-        # ---- subset regenerates exactly the parent's columns for those terms
+        # ---- subset regenerates exactly the parent's columns for those terms, in the ORDER CHOSEN (documented), and its own metadata is truthful
         keep = [t for t in ms.terms if rng.random() < 0.6] or list(ms.terms)[:1]
+        rng.shuffle(keep)
+        chosen_f = [list(t.factors) for t in keep]
+        chosen_f = [list(reversed(c)) if rng.random() < 0.3 else c for c in chosen_f]      # a term is its factor SET: any factor order
+        absent = rng.random() < 0.12
+        if absent:
+            chosen_f.insert(rng.randrange(len(chosen_f) + 1), [Factor("zz")])
+        chosen = [[fc.expr for fc in c] for c in chosen_f]
+        chosen_terms = [Term(c) for c in chosen_f]
+        sub_names, getix = None, None
         try:
-            sub = ms.subset(Formula(keep, _ordering="none"))
+            getix = [int(k) for k in ms.get_term_indices(Formula(chosen_terms, _ordering="none"))]
+        except ValueError:
+            pass
+        except Exception as e:
+            ctx.fail(f"get_term_indices({chosen}): {type(e).__name__}: {e}", rp)
+        try:
+            sub = ms.subset(Formula(chosen_terms, _ordering="none"))
+            sub_names = list(sub.column_names)
+        except ValueError:
+            sub = None
+        except Exception as e:
+            sub = None
+            ctx.fail(f"subset to {chosen}: {type(e).__name__}: {e}", rp)
+        if absent and (sub is not None or getix is not None):
+            ctx.fail(f"subset / get_term_indices with the unknown term 'zz' in {chosen} did not raise", rp)
+        if not absent and (sub is None or getix is None):
+            ctx.fail(f"subset / get_term_indices to the spec's own terms {chosen} raised", rp)
+        if sub is not None and not absent:
+          try:
+            parent_ix = [k for t in keep for k in ms.term_indices[t]]
+            if getix != parent_ix:
+                ctx.fail(f"get_term_indices({chosen}) = {getix}; the terms occupy {parent_ix} in the order chosen", rp)
             sm = sub.get_model_matrix(df)
             sarr = np.asarray(sm.toarray() if out == "sparse" else sm, dtype=float)
-            parent_ix = [k for row in sub.structure for k in ms.term_indices[row.term]]
-            if list(sub.column_names) != [names[k] for k in parent_ix] or not np.array_equal(sarr, arr[:, parent_ix], equal_nan=True):
-                ctx.fail(f"the spec subset to {keep} does not regenerate the parent's columns {parent_ix}", rp)
+            if sub_names != [names[k] for k in parent_ix] or not np.array_equal(sarr, arr[:, parent_ix], equal_nan=True):
+                ctx.fail(f"the spec subset to {keep} has columns {sub_names}; the parent's columns for those terms in that order are {[names[k] for k in parent_ix]} (or the values differ)", rp)
+            if out == "pandas" and [str(c) for c in sm.columns] != sub_names:
+                ctx.fail(f"subset to {keep}: column_names {sub_names} differ from the labels {list(sm.columns)} of its matrix", rp)
+            if list(sub.terms) != list(keep):
+                ctx.fail(f"subset to {keep}: its terms are {list(sub.terms)}", rp)
+            sflat = [k for t in sub.terms for k in sub.term_indices[t]]
+            if sflat != list(range(len(sub_names))):
+                ctx.fail(f"subset to {keep}: its term index ranges {dict(sub.term_indices)} are not a contiguous partition in term order", rp)
+            for t in sub.terms:
+                if [sub_names[k] for k in sub.term_indices[t]] != [names[k] for k in ms.term_indices[t]]:
+                    ctx.fail(f"subset to {keep}: term {t!r} indexes columns {[sub_names[k] for k in sub.term_indices[t]]}, in the parent it owns {[names[k] for k in ms.term_indices[t]]}", rp)
             # ... on NEW data as well: the subset carries the recorded state of everything its terms use (nested transforms included)
             new = df.iloc[: max(3, n // 2)].copy()
             for cnum in M.NUM:                       # values from other training rows: inside every recorded bound, another mean
@@ -139,10 +180,13 @@ def run(ctx: Ctx):
             sa_ = np.asarray(sn.toarray() if out == "sparse" else sn, dtype=float)
             if sa_.shape != pa_[:, parent_ix].shape or not np.allclose(sa_, pa_[:, parent_ix], rtol=1e-12, atol=1e-12, equal_nan=True):
                 ctx.fail(f"on new data the spec subset to {keep} differs from the parent's columns {parent_ix} (recorded state lost in the subset)", rp)
-        except Exception as e:
+          except Exception as e:
             ctx.fail(f"subset to {keep}: {type(e).__name__}: {e}", rp)
-        lit = "{| x_rows := %s; x_names := %s; x_term_lookups := %s; x_slices := %s; x_cols := %s; x_vars := %s |}" % (
-            clist(rows_lit), clist(cstr(c) for c in names), clist(look), clist(slices), clist(cols), clist(vlit))
+        ctx.count("metadata", "subset=" + ("unknown-term" if absent else "reordered" if [repr(t) for t in keep] != [repr(t) for t in ms.terms if t in keep] else "in-order"))
+        lit = "{| x_rows := %s; x_names := %s; x_term_lookups := %s; x_slices := %s; x_cols := %s; x_vars := %s; x_chosen := %s; x_subset := %s; x_getix := %s |}" % (
+            clist(rows_lit), clist(cstr(c) for c in names), clist(look), clist(slices), clist(cols), clist(vlit),
+            clist(clist(cstr(x) for x in c) for c in chosen), copt(sub_names, lambda v: clist(cstr(c) for c in v)),
+            copt(getix, lambda v: clist(str(k) + "%nat" for k in v)))
         lits.append(lit)
         descr.append(rp)
         ctx.count("metadata", f"output={out}")
